@@ -105,7 +105,9 @@ func (db *DB) Close() {
 	defer atomic.StoreUint32(&db.state, uint32(StateClosed))
 	db.closeC <- struct{}{}
 
+	db.mu.RLock()
 	mt := db.memtable
+	db.mu.RUnlock()
 	mt.freeze()
 	if mt.size() > 0 {
 		db.flushImmutable(mt)
@@ -189,16 +191,22 @@ func (db *DB) search(key types.Key) ([]byte, bool) {
 }
 
 func (db *DB) rawset(entry types.Entry) {
-	db.memtable.set(entry)
+	db.mu.RLock()
+	mt := db.memtable
+	db.mu.RUnlock()
 
-	if db.memtable.size() >= db.config.MemtableByteThreshold {
-		db.memtable.freeze()
-		imt := db.memtable
+	mt.set(entry)
 
-		db.flushC <- imt
-		db.immutables.PushBack(imt)
+	if mt.size() >= db.config.MemtableByteThreshold {
+		mt.freeze()
 
-		db.memtable = db.memtable.reset()
+		// publish the rotation to readers before the flusher can see the immutable memtable
+		db.mu.Lock()
+		db.immutables.PushBack(mt)
+		db.memtable = mt.reset()
+		db.mu.Unlock()
+
+		db.flushC <- mt
 	}
 }
 
@@ -223,8 +231,9 @@ LOOP:
 			db.flushImmutable(imt)
 			db.manager.checkAndCompact()
 
+			// immutables are flushed in the order they were queued, the flushed one is the oldest
 			db.mu.Lock()
-			db.immutables.Remove(db.immutables.Back())
+			db.immutables.Remove(db.immutables.Front())
 			db.mu.Unlock()
 
 			if closed && len(db.flushC) == 0 {
